@@ -7,9 +7,9 @@ W=$(mktemp -d /tmp/ruint_benign_XXXXXX); rmdir "$W"
 git -C /repo worktree add --detach "$W" HEAD -q || exit 2
 trap 'git -C /repo worktree remove --force "$W" >/dev/null 2>&1; rm -rf "$W" "$W.ev"' EXIT
 rc=0
-[ $# -eq 0 ] && set -- $(ls /verif/benign)
+[ $# -eq 0 ] && set -- $(ls /verif/${BENIGN_DIR:-benign})
 for id in "$@"; do
-  for P in /verif/benign/$id/refactor_*.diff; do
+  for P in /verif/${BENIGN_DIR:-benign}/$id/refactor_*.diff; do
     k=$(basename "$P" .diff)
     git -C "$W" checkout -q -- .
     if ! git -C "$W" apply "$P" 2>/dev/null; then echo "== $id/$k: does not apply to HEAD (skipped)"; continue; fi
